@@ -33,6 +33,9 @@ structure NodeRec where
   /-- run-time meaning of the node: values of the inputs ↦ value of the output called `key`
       (for `constant` it ignores its argument; unused for `argument`). -/
   sem : List Payload → String → Option Payload
+  /-- recorded at construction: the node did NOT propagate (`propagates sel traits = false`: backend NONE,
+      sampling operator, subgraph carrier, inlined control flow). Arguments / constants: `false`. -/
+  guarded : Bool := false
 
 abbrev State := List NodeRec
 
@@ -84,12 +87,14 @@ def step (v : Variant) (st : State) : Step → Except Exc State
     if !inputsExist st inputs || inNames.length != inputs.length then .error .typeError else
     match construct v sel .standard (mkCtx st inputs inNames outs traits.skips) b with
     | .error e => .error e
-    | .ok res => .ok (st ++ [{ kind := .standard, inputs := inputs, outputs := res.map (·.1), sem := sem }])
+    | .ok res => .ok (st ++ [{ kind := .standard, inputs := inputs, outputs := res.map (·.1), sem := sem,
+                               guarded := !propagates sel traits }])
   | .inline sel inputs inNames gnames outs traits b sem =>
     if !inputsExist st inputs || inNames.length != inputs.length then .error .typeError else
     match construct v sel (.inline gnames) (mkCtx st inputs inNames outs traits.skips) b with
     | .error e => .error e
-    | .ok res => .ok (st ++ [{ kind := .inline, inputs := inputs, outputs := res.map (·.1), sem := sem }])
+    | .ok res => .ok (st ++ [{ kind := .inline, inputs := inputs, outputs := res.map (·.1), sem := sem,
+                               guarded := !propagates sel traits }])
 
 /-- Run a history; a raising constructor call leaves no node behind (the program sees the
     exception; the theorems are about the calls that returned). -/
